@@ -4,6 +4,7 @@ import DAVerif.Drv.CC
 import DAVerif.Drv.OpsDrv
 import DAVerif.Drv.Schema
 import DAVerif.Drv.EvalCache
+import DAVerif.Drv.DataSpace
 /-!
 Line-protocol driver: one JSON case per input line
   {"suite": "...", "id": n, "case": {...}}   →   {"id": n, "out": ...} | {"id": n, "bad": "reason"}
@@ -12,7 +13,7 @@ Total: a malformed or unknown case answers `bad`.
 open Lean DAVerif.Drv
 
 def allHandlers : List (String × Handler) :=
-  OSetDrv.handlers ++ CCDrv.handlers ++ OpsDrv.handlers ++ SchemaDrv.handlers ++ EvalCacheDrv.handlers
+  OSetDrv.handlers ++ CCDrv.handlers ++ OpsDrv.handlers ++ SchemaDrv.handlers ++ EvalCacheDrv.handlers ++ DataSpaceDrv.handlers
 
 def answer (line : String) : Json :=
   match Json.parse line with
